@@ -11,6 +11,13 @@
 // same object after every parameter was changed (setters; relaxation / upper bound / positivity through the parser, which is
 // their only public interface), and an objective function used by an OSMAPOSL object before.  The denominator file written by
 // every set_up must equal the one of the first set_up, and in histories 2/3 a run with fresh objects must reproduce the run.
+// (2') The prior share of the update uses the harness's OWN quadratic prior (OwnPrior in c07_recon_common.h, from the class
+// documentation via c09_ref.h): gradient beta sum_dr w_dr (lambda_r - lambda_{r+dr}) kappa_r kappa_{r+dr} and surrogate curvature
+// beta sum_dr w_dr kappa_r kappa_{r+dr}; D = max(D0 + 2 x curvature, threshold).  What a prior object returns is a statistic only.
+// (5) file-based stages ("files" = 1 setters / 2 parsed parameter text + zero-argument reconstruct()): run A is stage 1 - its
+// objective function WRITES the sensitivities it computed; (5a) the files equal the explicit-P sensitivity; (5b) for EVERY k
+// stage 2 = NEW objects that read the image saved after k and the sensitivities from those files ('recompute sensitivity' off)
+// and, in half of the parsed cases, the data part of the denominator from the file stage 1 wrote ('precomputed denominator').
 #include "c07_recon_common.h"
 #include "stir/OSSPS/OSSPSReconstruction.h"
 #include "stir/OSMAPOSL/OSMAPOSLReconstruction.h"
@@ -118,7 +125,7 @@ struct StepRef
 
 StepRef
 ref_step(const Fixture& F, const Cfg& k, const std::vector<double>& D0, std::vector<double> lam, int subiter, bool first_of_run, RefRun& R,
-         GeneralisedPrior<target_type>* prior)
+         const OwnPrior& own, GeneralisedPrior<target_type>* prior_object)
 {
   StepRef r;
   const std::size_t nv = lam.size();
@@ -136,25 +143,38 @@ ref_step(const Fixture& F, const Cfg& k, const std::vector<double>& D0, std::vec
   for (std::size_t v = 0; v < nv; ++v)
     g[v] -= F.sens_subset[std::size_t(S)][v];
   shared_ptr<target_type> lam_img;
-  if (prior)
+  if (own.on)
     {
-      lam_img = image_from_vec(F, lam);
-      shared_ptr<target_type> pg(lam_img->get_empty_copy());
-      prior->compute_gradient(*pg, *lam_img);
-      const std::vector<double> pgv = image_vec(F, *pg);
+      // the harness's own gradient of the documented quadratic prior; the prior object's gradient is recorded only
+      const std::vector<double> pgv = own.gradient(lam);
       for (std::size_t v = 0; v < nv; ++v)
         g[v] -= pgv[v] / double(k.N);
+      if (prior_object)
+        {
+          lam_img = image_from_vec(F, lam);
+          shared_ptr<target_type> pg(lam_img->get_empty_copy());
+          prior_object->compute_gradient(*pg, *lam_img);
+          prior_object_statistic("statistic: max rel diff gradient of a QuadraticPrior object vs the harness's own", image_vec(F, *pg), pgv);
+        }
     }
   if (!R.have_D)
     {
       std::vector<double> W = D0;
-      if (prior)
+      if (own.on)
         {
-          shared_ptr<target_type> cv(lam_img->get_empty_copy());
-          dynamic_cast<PriorWithParabolicSurrogate<target_type>&>(*prior).parabolic_surrogate_curvature(*cv, *lam_img);
-          const std::vector<double> cvv = image_vec(F, *cv);
+          // the harness's own surrogate curvature (QuadraticPrior.h: "the sum of weighting coefficients", with the kappa
+          // factors of the documented prior: beta sum_dr w_dr kappa_r kappa_{r+dr}); the object's curvature is recorded only
+          const std::vector<double> cvv = own.curvature(lam);
           for (std::size_t v = 0; v < nv; ++v)
             W[v] = 2. * cvv[v] + D0[v];
+          if (prior_object)
+            {
+              if (!lam_img)
+                lam_img = image_from_vec(F, lam);
+              shared_ptr<target_type> cv(lam_img->get_empty_copy());
+              dynamic_cast<PriorWithParabolicSurrogate<target_type>&>(*prior_object).parabolic_surrogate_curvature(*cv, *lam_img);
+              prior_object_statistic("statistic: max rel diff surrogate curvature of a QuadraticPrior object vs the harness's own", image_vec(F, *cv), cvv);
+            }
         }
       // documented: threshold_min_to_small_positive_value(denominator, 10.E-6F)
       double minpos = 0;
@@ -279,13 +299,15 @@ execute(OSSPSReconstruction<target_type>& recon, const Fixture& F, const Cfg& k,
 //! one reconstruction with FRESH objects; `keep` receives the objects (for histories that go on using them)
 std::string
 run_recon(const Fixture& F, const Cfg& k, const std::string& prefix, const shared_ptr<target_type>& target, int start, Run& out, bool* setup_rejected,
-          Sps* keep = nullptr)
+          Sps* keep = nullptr, const SensFiles* write_sensitivities = nullptr)
 {
   *setup_rejected = false;
   Sps o;
   o.recon.reset(new OSSPSReconstruction<target_type>);
   o.ospec = final_objspec(F, k.prior, k.use_subsens);
   o.obj = make_objective(F, k.prior, k.use_subsens);
+  if (write_sensitivities) // stage 1 of the file-based stages
+    set_sensitivity_files_for_writing(*o.obj, *write_sensitivities, k.use_subsens);
   o.recon->set_objective_function_sptr(o.obj);
   const std::string pm = configure(*o.recon, k, prefix, start);
   if (!pm.empty())
@@ -304,6 +326,78 @@ resume_same_object(Sps& o, const Fixture& F, const Cfg& k, const std::string& pr
   o.recon->set_start_subiteration_num(start);
   o.recon->set_output_filename_prefix(prefix);
   return execute(*o.recon, F, k, prefix, target, start, out, setup_rejected);
+}
+
+//! stage 2 of the file-based stages: NEW objects; the objective function READS the sensitivities stage 1 wrote ('recompute
+//! sensitivity' off), the reconstruction starts at sub-iteration `start` from the image file `start_file`.
+//! files = 1: setters (+ the parser for the parameters that have no setter), image read by the harness and passed to
+//! set_up()/reconstruct(target);  files = 2: everything that has a keyword in ONE parameter text, 'initial estimate' read by the
+//! zero-argument reconstruct(); with `denominator_file` also 'precomputed denominator' = the file stage 1 wrote at set_up (the data
+//! part of D; the class adds twice the prior curvature at the first sub-iteration of the run, as for a computed one).
+std::string
+run_recon_files(const Fixture& F, const Cfg& k, const std::string& prefix, const std::string& start_file, int start, Run& out, const SensFiles& sf, int files,
+                const std::string& denominator_file)
+{
+  Sps o;
+  o.recon.reset(new OSSPSReconstruction<target_type>);
+  o.obj = make_objective_reading_sensitivities(F, k.prior, k.use_subsens, sf, files);
+  o.recon->set_objective_function_sptr(o.obj);
+  if (files != 2)
+    {
+      const std::string pm = configure(*o.recon, k, prefix, start);
+      if (!pm.empty())
+        return pm;
+      bool rej;
+      return execute(*o.recon, F, k, prefix, read_image(F, start_file), start, out, &rej);
+    }
+  o.recon->set_output_file_format_ptr(float_interfile());
+  {
+    std::stringstream par;
+    par << "OSSPSParameters :=\n"
+        << "number of subsets := " << k.N << "\n"
+        << "number of subiterations := " << k.n_sub << "\n"
+        << "start at subiteration number := " << start << "\n"
+        << "start at subset := " << k.start_subset << "\n"
+        << "save estimates at subiteration intervals := 1\n"
+        << "uniformly randomise subset order := 0\n"
+        << "initial estimate := " << start_file << "\n"
+        << "output filename prefix := " << prefix << "\n"
+        << "enforce initial positivity condition := " << (k.enforce ? 1 : 0) << "\n"
+        << "relaxation parameter := " << fmt(double(k.alpha)) << "\n"
+        << "relaxation gamma := " << fmt(double(k.gamma)) << "\n"
+        << "upper bound := " << fmt(k.upper_bound) << "\n";
+    if (!denominator_file.empty())
+      par << "precomputed denominator := " << denominator_file << "\n";
+    par << "End :=\n";
+    if (!o.recon->parse(par))
+      return "parsing the OSSPS parameter text failed";
+  }
+  try
+    {
+      if (o.recon->reconstruct() != Succeeded::yes)
+        return "the zero-argument reconstruct() returned Succeeded::no";
+    }
+  catch (const stir_verif::AssertionFailure&)
+    {
+      throw;
+    }
+  catch (const std::exception& e)
+    {
+      return std::string("the zero-argument reconstruct(): ") + e.what();
+    }
+  if (denominator_file.empty())
+    out.denominator = read_image(F, prefix + "_precomputed_denominator.hv"); // written by the set_up inside reconstruct()
+  else
+    {
+      out.denominator.reset(); // read, not computed: no file is written
+      stats().count(std::filesystem::exists(prefix + "_precomputed_denominator.hv") ? "stage 2 with 'precomputed denominator' from file: a denominator file was written nevertheless"
+                                                                                     : "stage 2 with 'precomputed denominator' from file: none computed (no file written)");
+    }
+  out.iter.assign(std::size_t(k.n_sub) + 1, shared_ptr<target_type>());
+  for (int j = start; j <= k.n_sub; ++j)
+    out.iter[std::size_t(j)] = read_image(F, cat(prefix, "_", j, ".hv"));
+  out.final_in_memory.reset();
+  return "";
 }
 
 Result
@@ -353,6 +447,10 @@ check(const json& c_in)
   const int hist = c.value("hist", int(HIST_FRESH));
   const json hj = c.value("h", json::object());
   const std::string hnote = hist == HIST_FRESH ? std::string() : cat("[history: ", hist_name(hist), "] ");
+  // file-based stages (clause 5): only with fresh objects for every run; 1 = setters, 2 = parsed text + reconstruct()
+  const int files = hist == HIST_FRESH ? c.value("files", 0) : 0;
+  const bool den_file = files == 2 && c.value("den_file", false);
+  const SensFiles sf(tmp.path);
 
   // reference data part of the denominator: - (approximate Hessian) 1 = sum_b P_b^T [ (P 1)_b / (y_b / n_b^2) ] with the
   // documented thresholds of divide_and_truncate (numerator = P 1, per viewgram)
@@ -372,10 +470,17 @@ check(const json& c_in)
   if (hist == HIST_FRESH || hist == HIST_SAME_OBJECT_RESUME)
     {
       bool rej;
-      const std::string msg = run_recon(F, k, tmp.path + "/A", image_from_vec(F, F.start), 1, A, &rej, &R);
+      const std::string msg = run_recon(F, k, tmp.path + "/A", image_from_vec(F, F.start), 1, A, &rej, &R, files ? &sf : nullptr);
       if (rej)
         return Result::reject("run A " + msg);
       VF_CHECK(msg.empty(), "run A: ", msg);
+      if (files)
+        {
+          // (5a) the files stage 1 wrote, read back with read_from_file, against the explicit-P sensitivity
+          const Result res = check_sensitivity_files(F, sf, k.use_subsens, k.N, proj_note);
+          if (res.failed())
+            return res;
+        }
     }
   else if (hist == HIST_SECOND_RUN)
     {
@@ -495,12 +600,13 @@ check(const json& c_in)
                " at voxel ", v, " outside [0, ", ub, "]");
 
   // (2) every update against the documented formula
-  // the reference takes gradient and surrogate curvature from a shipped QuadraticPrior in both modes: with
-  // recompute_penalty_term_in_denominator on (QuadraticPriorRecompute in the objects under test) the class adds 2 x curvature to
+  // the reference computes gradient and surrogate curvature of the documented quadratic prior itself (OwnPrior), the same in
+  // both modes: with recompute_penalty_term_in_denominator on (QuadraticPriorRecompute in the objects under test) the class adds 2 x curvature to
   // the untouched data part at every sub-iteration, which for a quadratic prior is the same D = max(D0 + 2 curvature, threshold)
   PriorSpec ref_spec = k.prior;
   ref_spec.recompute = false;
-  shared_ptr<GeneralisedPrior<target_type>> ref_prior = make_prior(F, ref_spec);
+  const OwnPrior own_prior = make_own_prior(F, ref_spec); // the oracle
+  shared_ptr<GeneralisedPrior<target_type>> ref_prior = make_prior(F, ref_spec); // feeds statistics only
   if (ref_prior)
     ref_prior->set_up(F.image);
   bool any_hi = false, any_lo = false, any_cap = d0_flags.cap_active;
@@ -508,7 +614,7 @@ check(const json& c_in)
   bool formula_ok = !d0_flags.ambiguous;
   for (int j = 1; j <= n && formula_ok; ++j)
     {
-      const StepRef r = ref_step(F, k, D0, lam[std::size_t(j - 1)], j, j == 1, RA, ref_prior.get());
+      const StepRef r = ref_step(F, k, D0, lam[std::size_t(j - 1)], j, j == 1, RA, own_prior, ref_prior.get());
       for (double d : RA.D)
         VF_CHECK(d > 0., "reference denominator not strictly positive: ", d);
       any_hi |= r.clamped_hi;
@@ -560,99 +666,143 @@ check(const json& c_in)
           ks.push_back(kk);
       }
   long compared = 0;
-  for (int kk : ks)
+  // kinds of resumed runs: 0 fresh objects that recompute their sensitivities, 1 the same reconstruction object again,
+  // 2 file-based stage 2 (fresh objects that read image AND sensitivities - optionally the denominator - from the files of
+  // stage 1).  In a files case the file-based resume replaces the recomputing one; "files_both" (thorough tier) runs both.
+  std::vector<int> kinds;
+  if (hist != HIST_FRESH)
+    kinds.push_back(1);
+  else
     {
-      const std::vector<double>& lk = lam[std::size_t(kk)];
-      bool has_zero = false, nonident_nonzero = false;
-      for (std::size_t v = 0; v < lk.size(); ++v)
-        {
-          if (lk[v] == 0.)
-            has_zero = true;
-          if (F.sens_total[v] == 0. && lk[v] != 0.)
-            nonident_nonzero = true;
-        }
-      // documented behaviour of the option: enforce_initial_positivity lifts the zeros of the initial image of a run
-      const bool lifting = k.enforce && has_zero;
-      // KNOWN FINDING C08-F1 (work/notes/C08_findings.md): update_estimate zeroes the voxels no bin can see at the first
-      // sub-iteration OF EVERY RUN (subiteration_num == start_subiteration_num); with a prior these voxels are non-zero in
-      // the uninterrupted run from sub-iteration 1 on, so a resumed run differs.  Excluded narrowly by construction: equality
-      // with run A is not demanded for a k whose saved image is non-zero at such a voxel (the first update of the resumed run
-      // is then checked against the formula WITH the re-zeroing instead).  VERIF_NO_EXCLUDE=1 demands equality.
-      const bool rezero = nonident_nonzero;
-      Run B;
-      bool rej;
-      shared_ptr<target_type> start_img = read_image(F, cat(tmp.path, "/A_", kk, ".hv"));
-      const std::string msg = hist == HIST_FRESH ? run_recon(F, k, cat(tmp.path, "/B", kk), start_img, kk + 1, B, &rej)
-                                                 : resume_same_object(R, F, k, cat(tmp.path, "/B", kk), start_img, kk + 1, B, &rej);
-      VF_CHECK(msg.empty(), hnote, "resumed run (start at sub-iteration ", kk + 1, ") failed: ", msg);
-      if (hist != HIST_FRESH)
-        stats().count("resumes on the same reconstruction object");
-      {
-        // every set_up computes the data part of the denominator from scratch (documented: "call set_up() before running a
-        // new reconstruction"): the file it writes must be the one of the first set_up
-        const std::vector<double> DB = image_vec(F, *B.denominator);
-        double worst = 0;
-        std::size_t wv = 0;
-        for (std::size_t v = 0; v < DB.size(); ++v)
-          if (std::fabs(DB[v] - D0_stir[v]) > worst)
-            {
-              worst = std::fabs(DB[v] - D0_stir[v]);
-              wv = v;
-            }
-        VF_CHECK(DB == D0_stir, hnote, "the precomputed denominator of the resumed run (start at sub-iteration ", kk + 1,
-                 hist == HIST_FRESH ? ", fresh objects" : ", on the object that has run before",
-                 ") differs from the one of the uninterrupted run: ", DB[wv], " vs ", D0_stir[wv], " at voxel ", wv);
-      }
-      for (int j = kk + 1; j <= n; ++j)
-        {
-          const std::vector<double> b = image_vec(F, *B.iter[std::size_t(j)]);
-          for (std::size_t v = 0; v < b.size(); ++v)
-            VF_CHECK(std::isfinite(b[v]) && b[v] >= 0. && b[v] <= ub, "resumed run (from ", kk, "): iterate ", j, " has value ", b[v], " at voxel ", v, " outside [0, ", ub,
-                     "]");
-        }
-      const bool excluded = rezero && !no_exclude();
-      if (excluded)
-        {
-          stats().excluded_known++;
-          stats().count("excluded: restart equality at a k whose saved image is non-zero at a voxel no bin sees (finding C08-F1)");
-        }
-      if (!lifting && !excluded)
-        {
-          for (int j = kk + 1; j <= n; ++j)
-            {
-              const Result res = compare("restart", image_vec(F, *B.iter[std::size_t(j)]), lam[std::size_t(j)], vmax(lam[std::size_t(j)]), 1e-6, "max rel diff restart",
-                                         cat(hnote, "(resumed at sub-iteration ", kk + 1, " from the image saved after ", kk, ", iterate ", j, " of ", n, ", N=", k.N,
-                                             hist == HIST_FRESH ? ", fresh objects" : ", on the object that has run before",
-                                             rezero ? ", saved image non-zero at voxels no bin sees: finding C08-F1" : "", ")"));
-              if (res.failed())
-                return res;
-            }
-          ++compared;
-          if (kk % k.N != 0)
-            stats().count("restarts compared at k not a multiple of N");
-        }
-      else if (formula_ok)
-        {
-          // the resumed run is a run of its own: first update from the (lifted, re-zeroed) saved image by formula
-          bool ch = false;
-          const std::vector<double> st = lifting ? lift_initial(lk, ch) : lk;
-          RefRun RB;
-          const StepRef r = ref_step(F, k, D0, st, kk + 1, true, RB, ref_prior.get());
-          if (!r.fl.ambiguous)
-            {
-              const Result res = compare("first update of the resumed run (documented treatment of its initial image)", image_vec(F, *B.iter[std::size_t(kk + 1)]), r.next,
-                                         r.scale, 3e-4, "max rel err first update after restart (lifting / re-zeroing)", cat("(resumed at sub-iteration ", kk + 1, ")"));
-              if (res.failed())
-                return res;
-            }
-          stats().count("restarts with documented lifting or re-zeroing: first update checked by formula instead");
-        }
+      if (files)
+        kinds.push_back(2);
+      if (!files || c.value("files_both", false))
+        kinds.push_back(0);
     }
+  for (int kk : ks)
+    for (int kind : kinds)
+      {
+        const std::vector<double>& lk = lam[std::size_t(kk)];
+        bool has_zero = false, nonident_nonzero = false;
+        for (std::size_t v = 0; v < lk.size(); ++v)
+          {
+            if (lk[v] == 0.)
+              has_zero = true;
+            if (F.sens_total[v] == 0. && lk[v] != 0.)
+              nonident_nonzero = true;
+          }
+        // documented behaviour of the option: enforce_initial_positivity lifts the zeros of the initial image of a run
+        const bool lifting = k.enforce && has_zero;
+        // KNOWN FINDING C08-F1 (work/notes/C08_findings.md): update_estimate zeroes the voxels no bin can see at the first
+        // sub-iteration OF EVERY RUN (subiteration_num == start_subiteration_num); with a prior these voxels are non-zero in
+        // the uninterrupted run from sub-iteration 1 on, so a resumed run differs.  Excluded narrowly by construction: equality
+        // with run A is not demanded for a k whose saved image is non-zero at such a voxel (the first update of the resumed run
+        // is then checked against the formula WITH the re-zeroing instead).  VERIF_NO_EXCLUDE=1 demands equality.
+        const bool rezero = nonident_nonzero;
+        Run B;
+        bool rej = false;
+        const std::string start_file = cat(tmp.path, "/A_", kk, ".hv");
+        const std::string bprefix = cat(tmp.path, kind == 2 ? "/F" : "/B", kk);
+        const std::string how = kind == 0 ? ", fresh objects"
+                                          : (kind == 1 ? ", on the object that has run before"
+                                                       : (files == 2 ? (den_file ? ", NEW objects reading image, sensitivities and denominator from files (parsed parameter text, reconstruct())"
+                                                                                 : ", NEW objects reading image and sensitivities from files (parsed parameter text, reconstruct())")
+                                                                     : ", NEW objects reading image and sensitivities from files (setters)"));
+        const std::string msg = kind == 0 ? run_recon(F, k, bprefix, read_image(F, start_file), kk + 1, B, &rej)
+                                          : (kind == 1 ? resume_same_object(R, F, k, bprefix, read_image(F, start_file), kk + 1, B, &rej)
+                                                       : run_recon_files(F, k, bprefix, start_file, kk + 1, B, sf, files,
+                                                                         den_file ? tmp.path + "/A_precomputed_denominator.hv" : std::string()));
+        VF_CHECK(msg.empty(), hnote, "resumed run (start at sub-iteration ", kk + 1, how, ") failed: ", msg);
+        if (kind == 1)
+          stats().count("resumes on the same reconstruction object");
+        if (kind == 2)
+          stats().count(files == 2 ? (den_file ? "file-based resumes: parsed parameter text + reconstruct(), denominator from file" : "file-based resumes: parsed parameter text + reconstruct()")
+                                   : "file-based resumes: setters");
+        if (B.denominator)
+          {
+            // every set_up computes the data part of the denominator from scratch (documented: "call set_up() before running a
+            // new reconstruction"): the file it writes must be the one of the first set_up
+            const std::vector<double> DB = image_vec(F, *B.denominator);
+            double worst = 0;
+            std::size_t wv = 0;
+            for (std::size_t v = 0; v < DB.size(); ++v)
+              if (std::fabs(DB[v] - D0_stir[v]) > worst)
+                {
+                  worst = std::fabs(DB[v] - D0_stir[v]);
+                  wv = v;
+                }
+            VF_CHECK(DB == D0_stir, hnote, "the precomputed denominator of the resumed run (start at sub-iteration ", kk + 1, how,
+                     ") differs from the one of the uninterrupted run: ", DB[wv], " vs ", D0_stir[wv], " at voxel ", wv);
+          }
+        for (int j = kk + 1; j <= n; ++j)
+          {
+            const std::vector<double> b = image_vec(F, *B.iter[std::size_t(j)]);
+            for (std::size_t v = 0; v < b.size(); ++v)
+              VF_CHECK(std::isfinite(b[v]) && b[v] >= 0. && b[v] <= ub, "resumed run (from ", kk, how, "): iterate ", j, " has value ", b[v], " at voxel ", v, " outside [0, ",
+                       ub, "]");
+          }
+        const bool excluded = rezero && !no_exclude();
+        if (excluded)
+          {
+            stats().excluded_known++;
+            stats().count("excluded: restart equality at a k whose saved image is non-zero at a voxel no bin sees (finding C08-F1)");
+          }
+        if (!lifting && !excluded)
+          {
+            for (int j = kk + 1; j <= n; ++j)
+              {
+                const Result res = compare(kind == 2 ? "restart through files" : "restart", image_vec(F, *B.iter[std::size_t(j)]), lam[std::size_t(j)], vmax(lam[std::size_t(j)]), 1e-6,
+                                           kind == 2 ? "max rel diff restart through files (image and sensitivities read)" : "max rel diff restart",
+                                           cat(hnote, "(resumed at sub-iteration ", kk + 1, " from the image saved after ", kk, ", iterate ", j, " of ", n, ", N=", k.N, how,
+                                               rezero ? ", saved image non-zero at voxels no bin sees: finding C08-F1" : "", ")"));
+                if (res.failed())
+                  return res;
+              }
+            ++compared;
+            if (kk % k.N != 0)
+              stats().count("restarts compared at k not a multiple of N");
+          }
+        if ((lifting || excluded || kind == 2) && formula_ok)
+          {
+            // the resumed run is a run of its own: first update from the (lifted, re-zeroed) saved image by formula; for the
+            // file-based stage 2 always (the formula with the harness's own sensitivities and denominator, independent of run A)
+            bool ch = false;
+            const std::vector<double> st = lifting ? lift_initial(lk, ch) : lk;
+            RefRun RB;
+            const StepRef r = ref_step(F, k, D0, st, kk + 1, true, RB, own_prior, nullptr);
+            if (!r.fl.ambiguous)
+              {
+                const Result res
+                    = compare(kind == 2 ? "first update of the run that read its image and sensitivities from files" : "first update of the resumed run (documented treatment of its initial image)",
+                              image_vec(F, *B.iter[std::size_t(kk + 1)]), r.next, r.scale, 3e-4,
+                              (lifting || excluded) ? "max rel err first update after restart (lifting / re-zeroing)" : "max rel err first update of a file-based resume",
+                              cat("(resumed at sub-iteration ", kk + 1, how, ")"));
+                if (res.failed())
+                  return res;
+              }
+            if (lifting || excluded)
+              stats().count("restarts with documented lifting or re-zeroing: first update checked by formula instead");
+            else
+              stats().count("first updates of file-based resumes checked by formula");
+          }
+      }
   stats().count("restarts compared with run A", compared);
-  stats().count("restarts run", long(ks.size()));
+  stats().count("restarts run", long(ks.size() * kinds.size()));
 
   // classes
   stats().cls(cat("history: ", hist_name(hist)));
+  if (files)
+    {
+      stats().cls(files == 2 ? (den_file ? "file-based stages: stage 2 through a parsed parameter text and reconstruct(), 'precomputed denominator' from file"
+                                         : "file-based stages: stage 2 through a parsed parameter text and reconstruct()")
+                             : "file-based stages: stage 2 through the setters");
+      stats().cls(k.use_subsens ? (k.N > 1 ? "file-based stages: 'subset sensitivity filenames', N > 1" : "file-based stages: 'subset sensitivity filenames', N = 1")
+                                : (k.N > 1 ? "file-based stages: 'sensitivity filename' (total), N > 1" : "file-based stages: 'sensitivity filename' (total), N = 1"));
+      if (n > 1)
+        stats().cls("file-based stages with at least one resume");
+    }
+  if (k.prior.kind != 0 && k.prior.kappa)
+    stats().cls("prior curvature with kappa computed by the harness's own formula");
   stats().cls(k.N == 1 ? "N=1" : (k.N <= 4 ? "N=2-4" : "N>=5"));
   stats().cls(balanced(F.vg_per_subset) ? "balanced subsets" : "unbalanced subsets");
   stats().cls(cat("prior ", k.prior.kind == 0 ? "none" : (k.prior.kappa ? "quadratic with kappa" : "quadratic")));
@@ -799,6 +949,14 @@ gen(Src& s, int size)
         h["k_pick"] = std::vector<int>{ int(s.range(0, 35)), int(s.range(0, 35)) };
       }
     c["h"] = h;
+  }
+  // file-based stages (effective in the fresh-object history): none 1/2, stage 2 through the setters 1/4, through a parsed
+  // parameter text + the zero-argument reconstruct() 1/4 (half of those also read 'precomputed denominator' from stage 1's file)
+  {
+    const int fr = int(s.range(0, 3));
+    c["files"] = fr < 2 ? 0 : fr - 1;
+    c["den_file"] = s.coin();
+    c["files_both"] = size > 75; // thorough tier: also the recomputing resume at every k
   }
   return c;
 }
